@@ -112,6 +112,12 @@ def run(chk):
     rnd = random.Random(chk.seed)
     max_capacity_part(chk, random.Random(chk.seed + 15))
     scns = geometry_cases(rnd, chk.quick()) + capacity_cases(rnd, chk.quick()) + loss_cases(rnd, chk.quick())
+    # losses repaired by coded fragments with high numbers / wire indices beyond 16384 (every coded fragment counts towards the rank)
+    from . import c07
+    for _ in range(8 if chk.quick() else 80):
+        for t in c07.twin_scenarios(rnd, True, base=c07.high_number_base(rnd), positions=lambda npos: []):
+            if t.meta["tag"] == "ref":
+                t.meta["kind"] = "loss"; t.meta["mode"] = "L"; scns.append(t)
     lines, impl, outs = session.run(chk, scns, stream="session-geometry")
     nt, dist = [], {"geometry": 0, "accepted": 0, "rejected": 0, "capacity": 0, "loss_L": 0, "loss_L+1": 0, "L_values": {}}
     for s, l, raw, out in zip(scns, lines, impl, outs):
@@ -152,9 +158,9 @@ def run(chk):
             nt.append(l)
         for m_ in msgs:
             chk.failures.append(core.Failure(m_, "session", "matrix", l, raw[:2000], key="c15"))
-        if len(chk.failures) > 10: break
+        if chk.too_many(): break
     chk.note_cases("session-geometry", lines, nt, sample_n=2, dist=dist)
     return chk.finish(level="proof",
         rule="geometry: (size, count) over u32 boundary classes x products around the slot limit x slot sizes 17664 B .. 64 KiB (thorough: 256 KiB, 1 MiB); capacity: every size 1..256 at several slot sizes incl. 256 KiB; "
-             "loss: exactly L and L+1 data fragments missing (L = persisted capacity, 1 <= L <= ~70; thorough up to several hundred), late data bringing the count down; max-capacity: a 512 KiB slot whose capacity is the maximum 2047, exactly 2047 fragments lost (release build, oracle only - the model needs ~l^3 steps); non-trivial = accepted geometries and loss scenarios; distinct by case text",
+             "loss: exactly L and L+1 data fragments missing (L = persisted capacity, 1 <= L <= ~70; thorough up to several hundred), late data bringing the count down; losses repaired by coded fragments numbered 8375 .. 30000; max-capacity: a 512 KiB slot whose capacity is the maximum 2047, exactly 2047 fragments lost (release build, oracle only - the model needs ~l^3 steps); non-trivial = accepted geometries and loss scenarios; distinct by case text",
         trusted=core.TRUSTED_COMMON + ["C15: slot sizes below 4 GiB (the code compares in u32)"])
